@@ -97,6 +97,9 @@ def match(p, n, b: dict, expanded: bool = False, exp=None) -> bool:
                 return b[name][0] == d
             b[name] = (d, n)
             return True
+        if isinstance(p, ast.arg) and isinstance(n, ast.arg) and p.arg.startswith("__MV_") and p.arg.endswith("__"):
+            # parameter of a lambda / def in the pattern: a metavariable for the parameter's name
+            return match(ast.Name(id=p.arg, ctx=ast.Load()), ast.Name(id=n.arg, ctx=ast.Load()), b, expanded, exp)
         if _is_ellipsis(p):
             return isinstance(n, ast.expr)
         if isinstance(p, ast.Assign) and isinstance(n, ast.AnnAssign) and len(p.targets) == 1 and n.value is not None:
@@ -155,7 +158,32 @@ def match(p, n, b: dict, expanded: bool = False, exp=None) -> bool:
                 return False
         return True
     if isinstance(p, list):
-        if not isinstance(n, list) or len(p) != len(n):
+        if not isinstance(n, list):
+            return False
+        if any(isinstance(x, ast.Expr) and _is_ellipsis(x.value) for x in p):
+            # `...` as a statement stands for any run of statements (possibly empty)
+            def seq(i, j, bb):
+                if i == len(p):
+                    return bb if j == len(n) else None
+                if isinstance(p[i], ast.Expr) and _is_ellipsis(p[i].value):
+                    for k in range(j, len(n) + 1):
+                        r = seq(i + 1, k, dict(bb))
+                        if r is not None:
+                            return r
+                    return None
+                if j >= len(n):
+                    return None
+                b2 = dict(bb)
+                if match(p[i], n[j], b2, expanded, exp):
+                    return seq(i + 1, j + 1, b2)
+                return None
+
+            r = seq(0, 0, dict(b))
+            if r is None:
+                return False
+            b.update(r)
+            return True
+        if len(p) != len(n):
             return False
         return all(match(x, y, b, expanded, exp) for x, y in zip(p, n))
     return p == n
@@ -164,7 +192,7 @@ def match(p, n, b: dict, expanded: bool = False, exp=None) -> bool:
 class Expander:
     """Substitutes single-assignment temporaries of a function by their defining expressions."""
 
-    def __init__(self, fn_node: ast.AST, max_depth: int = 4):
+    def __init__(self, fn_node: ast.AST, max_depth: int = 8):
         self.defs: dict[str, ast.expr] = {}
         counts: dict[str, int] = {}
         params = set()
